@@ -39,7 +39,7 @@ def gen_cases(ctx):
         order = list(range(q))
         rng.shuffle(order)
         cases.append({"enz": enz["name"], "q": q, "elements": ch["elements"], "order": order,
-                      "calls": rng.choice([1, 2, 3])})
+                      "calls": rng.choice([1, 2, 3]), "fail_first": q > 1 and rng.random() < 0.3})
     return cases
 
 
@@ -51,6 +51,10 @@ def run_product(case):
     q = case["q"]
     out = {"calls": []}
     pre = annot.cit_snapshot(ents)
+    if case.get("fail_first"):
+        # a consecutive-calls history that starts with an assembly that cannot complete (one module left out)
+        fobs, _ = implutil.observe_assembly(ents[q], [ents[i] for i in case["order"][1:]], id="prod", name="prod")
+        out["failed_call"] = {"out": fobs.get("out"), "inputs_same": annot.cit_snapshot(ents) == pre}
     for _ in range(case["calls"]):
         obs, prod = implutil.observe_assembly(ents[q], [ents[i] for i in case["order"]], id="prod", name="prod")
         view = annot.product_view(prod) if prod is not None else None
@@ -76,6 +80,10 @@ def oracle(case, res):
         for f in e["rec"]["features"]:
             src[f["q"]] = (f, refs)
     first = res["calls"][0]
+    fc = res.get("failed_call")
+    if fc and not fc["inputs_same"]:
+        return {"signature": "C10:inputs-renumbered-by-failed-call",
+                "what": "after an assembly that ends with %s the inputs' citation qualifiers are not what they were" % fc["out"]}
     if first["obs"]["out"] != "product":
         return {"signature": "C10:assembly-with-citations-fails",
                 "what": "records with citations do not assemble: %s %s" % (first["obs"]["exc"], first["obs"]["msg"])}
@@ -163,6 +171,8 @@ def run(ctx):
     for i, (c, r) in enumerate(zip(cases, res)):
         ctx.evaluations += 1
         ctx.count("calls:%d" % c["calls"])
+        if c.get("fail_first"):
+            ctx.count("history:failed-call-first")
         ctx.count("chain:%d" % c["q"])
         kept_cited = sum(1 for e in c["elements"] for f in e["rec"]["features"] if f.get("kept") and f.get("cit"))
         ctx.count("kept-citing-features:%d" % min(kept_cited, 5))
